@@ -19,6 +19,34 @@ THEOREMS = [
     "Cv.bfs_stored_iff",
     "Cv.bfs_hashes_rule",
     "Cv.bfs_callback_trace",
+    "Cv.C09e.encoded_bfs_sizes_prefix",
+    "Cv.C09e.encoded_bfs_sizes_pos",
+    "Cv.C09e.encoded_bfs_completed_sound",
+    "Cv.C09e.encoded_bfs_stopped_by_rule",
+    "Cv.C09e.encoded_bfs_no_early_stop",
+    "Cv.C09e.encoded_bfs_stored_sound",
+    "Cv.C09e.encoded_bfs_stored_iff",
+    "Cv.C09e.encoded_bfs_hashes_rule",
+    "Cv.C09e.encoded_bfs_callback_trace",
+    "Cv.C09e.plain_bfs_sizes_prefix",
+    "Cv.C09e.plain_bfs_sizes_pos",
+    "Cv.C09e.plain_bfs_completed_sound",
+    "Cv.C09e.plain_bfs_stopped_by_rule",
+    "Cv.C09e.plain_bfs_no_early_stop",
+    "Cv.C09e.plain_bfs_stored_sound",
+    "Cv.C09e.plain_bfs_stored_iff",
+    "Cv.C09e.plain_bfs_hashes_rule",
+    "Cv.C09e.plain_bfs_callback_trace",
+    "Cv.C09e.encoded1d_bfs_eq",
+    "Cv.C09e.single_word_bfs_sizes_prefix",
+    "Cv.C09e.single_word_bfs_sizes_pos",
+    "Cv.C09e.single_word_bfs_completed_sound",
+    "Cv.C09e.single_word_bfs_stopped_by_rule",
+    "Cv.C09e.single_word_bfs_no_early_stop",
+    "Cv.C09e.single_word_bfs_stored_sound",
+    "Cv.C09e.single_word_bfs_stored_iff",
+    "Cv.C09e.single_word_bfs_hashes_rule",
+    "Cv.C09e.single_word_bfs_callback_trace",
 ]
 
 
@@ -198,7 +226,7 @@ def main():
         body = json.load(open(os.path.join(VERIF, ck.replay) if not os.path.isabs(ck.replay) else ck.replay))
         ck.guard(run_case, ck, body["case"])
         ck.finish(rule="replay of one recorded case")
-    ck.lean_obligations("CvProps.C09", THEOREMS)
+    ck.lean_obligations(["CvProps.C09", "CvProps.C09e"], THEOREMS)
     for case in json.load(open(os.path.join(VERIF, "harness", "corpus", "C09.json"))):
         ck.guard(run_case, ck, case)
         ck.count("corpus")
